@@ -48,6 +48,7 @@ type c14Input struct {
 	Setup    []DBStep    `json:"setup"`         // sequential prefix (part of the history)
 	Threads  [][]c14Call `json:"threads"`       // the concurrent clients
 	Per      int         `json:"per,omitempty"` // calls per client between two quiescent points (0 = all at once)
+	Between  [][]DBStep  `json:"between,omitempty"` // Between[k]: sequential calls at the quiescent point before segment k's clients start (part of segment k's history); steps with save_fail run while the state directory is unreachable
 	Big      int         `json:"big,omitempty"` // bytes of an untouched filler secret: slow saves put the mutex into FIFO hand-off
 	Repeat   int         `json:"repeat,omitempty"`
 	SlowLog  int         `json:"slow_log,omitempty"` // microseconds the audit sink takes per record (widens the windows around it)
@@ -267,6 +268,17 @@ func runC14Program(work string, idx int, in c14Input) ([]c14Obs, error) {
 	obs := &c14Obs{InitGen: env.d.WriteGen()}
 	one := func(thread int, st DBStep) c14CallObs {
 		co := c14CallObs{Thread: thread, Op: st}
+		if st.SaveFail { // only at quiescent points: the rename is process-wide
+			hidden := env.state + ".hidden"
+			if err := os.Rename(env.state, hidden); err != nil {
+				fatal("hide state dir: %v", err)
+			}
+			defer func() {
+				if err := os.Rename(hidden, env.state); err != nil {
+					fatal("restore state dir: %v", err)
+				}
+			}()
+		}
 		if ht != nil && st.Val != corruptToken {
 			req, ep := ht.prepare(st.Caller, st)
 			rec := httptest.NewRecorder()
@@ -325,6 +337,11 @@ func runC14Program(work string, idx int, in c14Input) ([]c14Obs, error) {
 	defer runtime.GOMAXPROCS(old)
 	var all []c14Obs
 	for seg, from := 0, 0; from < maxLen || seg == 0; seg, from = seg+1, from+per {
+		if seg < len(in.Between) {
+			for _, st := range in.Between[seg] {
+				obs.Calls = append(obs.Calls, one(-1, st))
+			}
+		}
 		perThread := make([][]c14CallObs, len(in.Threads))
 		var wg sync.WaitGroup
 		start := make(chan struct{})
@@ -375,7 +392,11 @@ func coqC14(in c14Input, obs *c14Obs) string {
 	}
 	calls := make([]string, len(obs.Calls))
 	for i, c := range obs.Calls {
-		calls[i] = fmt.Sprintf("LC %d %d %d (%s) %s", c.Inv, c.Rsp, c.Op.Caller, coqOp(c.Op), coqRes(c.Res))
+		ctor := "LC"
+		if c.Op.SaveFail {
+			ctor = "LCf"
+		}
+		calls[i] = fmt.Sprintf("%s %d %d %d (%s) %s", ctor, c.Inv, c.Rsp, c.Op.Caller, coqOp(c.Op), coqRes(c.Res))
 	}
 	return fmt.Sprintf("LCase %s %s %d %s %s %s %d", coqList(cs), coqDisk(obs.InitDisk), obs.InitGen, coqList(calls), coqLive(obs.Live), coqDisk(obs.Disk), obs.Gen)
 }
@@ -409,15 +430,25 @@ func c14Record(in c14Input, obs *c14Obs, kind string) Record {
 	default:
 		tags["overlap:4+"] = true
 	}
+	refused := map[string]bool{}
 	for _, c := range obs.Calls {
 		tags["op:"+c.Op.Kind] = true
 		tags["res:"+c.Res.Class] = true
+		if c.Op.SaveFail {
+			tags["refused:"+c.Op.Kind] = true
+			if c.Res.Class == "other" {
+				refused[string(c.Op.Name)] = true
+			}
+		} else if refused[string(c.Op.Name)] && !isMut(c.Op.Kind) && c.Thread >= 0 {
+			tags["read-after-refused-save:"+c.Op.Kind] = true
+		}
 	}
+	tags[fmt.Sprintf("refused-saves:%v", len(refused) > 0)] = true
 	tags[fmt.Sprintf("calls:%d", (len(obs.Calls)/4)*4)] = true
 	var key strings.Builder
 	fmt.Fprintf(&key, "%s|%s|%d|", in.Mode, coqDisk(obs.InitDisk), obs.InitGen)
 	for _, c := range obs.Calls {
-		fmt.Fprintf(&key, "%d,%d,%d,%s,%s,%d,%d>%s;", c.Inv, c.Rsp, c.Op.Caller, c.Op.Kind, c.Op.Name, c.Op.Ver, c.Op.Val, coqRes(c.Res))
+		fmt.Fprintf(&key, "%d,%d,%d,%s,%s,%d,%d,%v>%s;", c.Inv, c.Rsp, c.Op.Caller, c.Op.Kind, c.Op.Name, c.Op.Ver, c.Op.Val, c.Op.SaveFail, coqRes(c.Res))
 	}
 	in2 := in
 	in2.Recorded = obs
@@ -481,7 +512,7 @@ func genC14(seed uint64, i int) c14Input {
 		return c14Call{DBStep: DBStep{Caller: caller(), Kind: kind, Name: name(), Ver: uint32(1 + r.IntN(3)), Val: 1 + r.IntN(4)}, Pre: pre()}
 	}
 	weights := map[string]int{"put": 30, "activate": 14, "delver": 9, "del": 6, "get": 14, "getver": 8, "getcond": 4, "info": 8, "list": 7}
-	shapes := []string{"random", "random", "random", "puts", "activate-get", "delete-put", "delver-info", "delver-activate", "list-two-names", "rotate", "activate-get", "poll-activate"}
+	shapes := []string{"random", "random", "random", "puts", "activate-get", "delete-put", "delver-info", "delver-activate", "list-two-names", "rotate", "activate-get", "poll-activate", "refused-saves", "refused-saves"}
 	in.Shape = shapes[r.IntN(len(shapes))]
 	if r.IntN(16) == 0 {
 		in.Big = 60000 + 40000*r.IntN(3)
@@ -538,6 +569,19 @@ func genC14(seed uint64, i int) c14Input {
 			nth, per = 3, 3
 		}
 	}
+	if in.Shape == "refused-saves" {
+		// at every quiescent point one refused mutation of each kind (the state directory is unreachable
+		// while it runs), then clients reading in every way - with every version worth asking for - and
+		// writing: what a refused call left behind outside the rolled-back store would show
+		in.Setup = []DBStep{{Kind: "put", Name: names[0], Val: 1}, {Kind: "put", Name: names[0], Val: 2}, {Kind: "put", Name: names[1], Val: 3}}
+		if r.IntN(2) == 0 {
+			in.Setup = append(in.Setup, DBStep{Kind: "put", Name: names[0], Val: 3})
+		}
+		if nth < 3 {
+			nth = 3
+		}
+		per = 3
+	}
 	// segments: the clients meet at a quiescent point (where the state is dumped) after every
 	// `per` calls, so a long run is decided as a sequence of small histories
 	segs := 1 + r.IntN(2)
@@ -549,6 +593,9 @@ func genC14(seed uint64, i int) c14Input {
 	}
 	if in.Shape == "poll-activate" {
 		segs = 4
+	}
+	if in.Shape == "refused-saves" {
+		segs = 3
 	}
 	if os.Getenv("VERIF_TIER_INTERNAL") == "thorough" {
 		segs *= 2
@@ -609,6 +656,27 @@ func genC14(seed uint64, i int) c14Input {
 					c.Name = names[0]
 					c.Ver = uint32(1 + r.IntN(6))
 				}
+			case "refused-saves":
+				switch x := r.IntN(20); {
+				case x < 5:
+					c = mk("getcond")
+				case x < 8:
+					c = mk("getver")
+				case x < 11:
+					c = mk("get")
+				case x < 13:
+					c = mk("info")
+				case x < 15:
+					c = mk("list")
+				default:
+					c = mk([]string{"put", "activate", "delver", "put", "del"}[r.IntN(5)])
+				}
+				if r.IntN(5) != 0 {
+					c.Name = names[0]
+				} else {
+					c.Name = names[1]
+				}
+				c.Ver = uint32(1 + r.IntN(4))
 			case "delete-put": // re-creation restarts at version 1
 				if t == 0 {
 					c = mk([]string{"del", "put"}[k%2])
@@ -655,7 +723,44 @@ func genC14(seed uint64, i int) c14Input {
 		}
 		in.Threads = append(in.Threads, th)
 	}
+	// refused saves at the quiescent points: always in the shape of that name, in a third of the others
+	if in.Shape == "refused-saves" || r.IntN(3) == 0 {
+		in.Between = make([][]DBStep, segs)
+		for k := range in.Between {
+			if in.Shape != "refused-saves" && segs > 1 && k == 0 && r.IntN(2) == 0 {
+				continue
+			}
+			in.Between[k] = c14Refused(r, in.Shape == "refused-saves", names)
+		}
+	}
 	return in
+}
+
+// c14Refused: mutations of each kind whose save will be refused (some need no save, or are denied,
+// and answer as usual), in random order.
+func c14Refused(r *randT, full bool, names [][]byte) []DBStep {
+	var all []DBStep
+	for v := uint32(1); v <= 4; v++ {
+		all = append(all, DBStep{Kind: "activate", Name: names[0], Ver: v, SaveFail: true})
+		if v <= 3 {
+			all = append(all, DBStep{Kind: "delver", Name: names[0], Ver: v, SaveFail: true})
+		}
+	}
+	all = append(all,
+		DBStep{Kind: "put", Name: names[0], Val: 1 + r.IntN(4), SaveFail: true},
+		DBStep{Kind: "put", Name: names[0], Val: 1 + r.IntN(4), SaveFail: true},
+		DBStep{Kind: "del", Name: names[0], SaveFail: true},
+		DBStep{Kind: "put", Name: names[1], Val: 1 + r.IntN(4), SaveFail: true},
+		DBStep{Kind: "activate", Name: names[1], Ver: uint32(1 + r.IntN(2)), SaveFail: true},
+		DBStep{Kind: "del", Name: names[1], SaveFail: true},
+		DBStep{Kind: "put", Name: []byte("c"), Val: 1, SaveFail: true}, // a creation that is rolled back
+		DBStep{Kind: "put", Name: names[0], Val: 2, Caller: 1, SaveFail: true}, // denied before anything
+	)
+	r.Shuffle(len(all), func(i, j int) { all[i], all[j] = all[j], all[i] })
+	if !full {
+		all = all[:3+r.IntN(4)]
+	}
+	return all
 }
 
 // ---- child: runs programs, one record per line, flushed after each ----
